@@ -377,8 +377,9 @@ class ModuleInfo:
 
 
 class Program:
-    def __init__(self, trees: dict, root: str):
+    def __init__(self, trees: dict, root: str, raw: bool = False):
         self.root = root
+        self._raw = raw
         self.trees = trees            # relpath -> ast.Module
         self.modules = {}             # dotted name -> ModuleInfo
         self.by_rel = {}
@@ -387,12 +388,14 @@ class Program:
             known = (_reference_locals().get(rel) or {}).get("__all__")
             known_by_rel[rel] = set(known) if known is not None else None
         params_by_rel = {rel: (_reference_locals().get(rel) or {}).get("__params__") for rel in trees}
-        canonicalise_program(trees, known_by_rel, params_by_rel)
+        if not raw:
+            canonicalise_program(trees, known_by_rel, params_by_rel)
         for rel, tree in trees.items():
-            inline_new_temps(tree, rel)
-            if accumulate_to_comprehension(tree) + accumulate_to_sum(tree):
-                inline_new_temps(tree, rel)       # a list / total that is now bound once may be a single-use temporary
-            normalise_locals(tree, rel)
+            if not raw:
+                inline_new_temps(tree, rel)
+                if accumulate_to_comprehension(tree) + accumulate_to_sum(tree):
+                    inline_new_temps(tree, rel)       # a list / total that is now bound once may be a single-use temporary
+                normalise_locals(tree, rel)
             name = rel[:-3].replace("/", ".")
             if name.endswith(".__init__"):
                 name = name[: -len(".__init__")]
@@ -423,7 +426,7 @@ class Program:
                             if nm in unknown and nm != fn.name:
                                 why = f"calls `{nm}`, a function the reference snapshot does not know and that could not be inlined"
                                 break
-                if why:
+                if why and not raw:
                     self.residue[f"{mi.name}.{qn}"] = why
 
     # ---------------------------------------------------------------- loading
@@ -445,6 +448,28 @@ class Program:
                     except SyntaxError as e:
                         raise AnalysisError(f"cannot parse {rel}: {e}")
         return cls(trees, root)
+
+    def as_written(self):
+        """The same source without any normalisation (no helper inlining, no renaming): for rules whose reading does not depend
+        on spelling (ownership of a cache key, in-place updates of kept objects), used where the normalised function carries
+        residue and a verdict on it would be withheld."""
+        if self._raw:
+            return self
+        if getattr(self, "_as_written", None) is None:
+            self._as_written = Program.load_raw(self.root)
+        return self._as_written
+
+    @classmethod
+    def load_raw(cls, root=None):
+        root = root or REPO
+        trees = {}
+        for dp, dn, fn in os.walk(os.path.join(root, PKG)):
+            dn[:] = [d for d in dn if d != "__pycache__"]
+            for f in sorted(fn):
+                if f.endswith(".py"):
+                    p = os.path.join(dp, f)
+                    trees[os.path.relpath(p, root)] = ast.parse(open(p).read(), filename=p)
+        return cls(trees, root, raw=True)
 
     def with_tree(self, rel, tree):
         """A new Program in which module `rel` is replaced by `tree` (self-test)."""
